@@ -97,8 +97,9 @@ CLAIMED = {
             'substituted result on the substituted chart; renaming_commutes_with_execute_once / _with_execution: for evaluators and listeners that '
             'cannot tell the names apart (EnvR), execute_once and whole runs on the relabelled chart give the relabelled macro steps or the same '
             'exception about the relabelled object, for every outcome; rename_state_preserves_behaviour (with rename_is_substitution and C07). '
-            'PARTIAL: that the modelled PythonEvaluator meets EnvR for code without active() (its evaluator is a partial def), and copy_from_statechart, '
-            'are checked by the tie (lock-step runs), not proved. ' + TIE, '§6 C17'),
+            'python_runs_commute_with_renaming / rename_state_preserves_python_behaviour: the modelled PythonEvaluator (total functions) meets EnvR '
+            'for every admissible relabelling when no code of the statechart calls active() (functional induction over the evaluator). '
+            'PARTIAL: copy_from_statechart is checked by the tie (lock-step runs), not proved. ' + TIE, '§6 C17'),
     'C18': ('Lean 4 proof: the interpreter is a value — runs compose at every boundary, an unobserved interpreter touches nothing else; snapshot identity decided by correspondence — partial',
             'run_composes, unobserved_step_is_local, unobserved_run_is_local (frame relation over execute_once). PARTIAL by nature: that pickle/deepcopy '
             'preserve the abstraction function is a fact about the implementation only; the tie replaces the interpreter by its pickled/deep-copied '
